@@ -299,6 +299,10 @@ def exhaustive_small():
         for cls, pre in (("EthernetII", bytes(12)), ("SNAP", bytes([0xaa, 0xaa, 3, 0, 0, 0])), ("SLL", bytes(14)), ("Dot1Q", bytes(2))):
             ops.append(f"parse {cls} " + hexs(pre + be16(et)))
             ops.append(f"parse {cls} " + hexs(pre + be16(et) + b"\x01"))
+    for code in (0, 9):                                     # PPPoE: a length field that promises bytes the capture lacks
+        for ln in (1, 4, 5, 6, 46, 0xffff):
+            ops.append("parse PPPoE " + hexs(bytes([0x11, code]) + be16(1) + be16(ln)))
+            ops.append("parse EthernetII " + hexs(bytes(12) + be16(0x8863 if code else 0x8864) + bytes([0x11, code]) + be16(1) + be16(ln)))
     for ln in (0, 1, 2, 3, 4, 5, 7, 8, 9, 255, 256):       # PPPoE: one tag, length field vs bytes present
         for present in (ln, max(0, ln - 1), ln + 1):
             ops.append("parse PPPoE " + hexs(bytes([0x11, 9]) + be16(0) + be16(4 + present) + be16(0x0105) + be16(ln) + bytes(present)))
